@@ -334,6 +334,15 @@ def check_netcdf(case, rec):
                 refs.append("F%d" % i)
             else:
                 refs.append("V%d" % i)
+        # the first variable read a second time, now with one of its own valid values declared missing: the two reads
+        # are independent of each other (missing there, an ordinary cell here), in whichever order they are written
+        c0 = case["cols"][0]
+        valid0 = [x for x, m in zip(c0["data"], c0["mask"] or [0] * rows) if not m]
+        dup_line = None
+        if valid0:
+            dup_line = 'Dup = EEMSRead(InFileName = "%s", InFieldName = "V0", DataType = "%s", MissingValue = %r)' % (
+                path, "Integer" if case["dtype"] == "int64" else "Float", valid0[0])
+            lines.insert(0 if case.get("own_missing", 0) % 2 else len(lines), dup_line)
         cmd = case["cmd"]
         pn = A.INPUT_PARAM[cmd]
         args = ["%s = [%s]" % (pn[0], ", ".join(refs))] if cmd in R.NARY else ["%s = %s" % (p_, r) for p_, r in zip(pn, refs)]
@@ -357,6 +366,17 @@ def check_netcdf(case, rec):
                 fails.append(Failure(sig + "|read|mask_lost", "V%d: row %d is missing in the file but valid (%r) in what was read" % (
                     i, int(numpy.flatnonzero(m & ~rm)[0]), numpy.ma.getdata(prog.commands["V%d" % i].result)[int(numpy.flatnonzero(m & ~rm)[0])].item())))
                 return fails
+        if dup_line:
+            v0, dup = prog.commands["V0"].result, prog.commands["Dup"].result
+            m0 = numpy.array(c0["mask"] or [0] * rows, dtype=bool)
+            hit = numpy.array([x == valid0[0] for x in c0["data"]]) & ~m0
+            rec.label("netcdf_variable_read_twice")
+            if not (numpy.ma.getmaskarray(dup)[hit]).all() or numpy.ma.getmaskarray(v0)[hit].any():
+                return [Failure(sig + "|read_twice|mask", "cells equal to %r: missing in the read that declares it (%r), present in the other (%r)" % (
+                    valid0[0], numpy.ma.getmaskarray(dup).astype(int).tolist(), numpy.ma.getmaskarray(v0).astype(int).tolist()))]
+            if not (numpy.ma.getdata(v0)[hit] == valid0[0]).all():
+                return [Failure(sig + "|read_twice|payload_leak", "the plain read holds %r where the file holds %r" % (
+                    numpy.ma.getdata(v0)[hit].tolist(), valid0[0]))]
         out = prog.commands["Out"].result
         if isinstance(out, numpy.ndarray) and out.shape == union.shape:
             rm = numpy.ma.getmaskarray(out)
